@@ -1,11 +1,12 @@
 // C12 — concurrent use of a cache is race-free and every result reflects one snapshot.
 // Two halves:
-//  (1) Engine B: pairs (and a triple) of cache operations as controlled threads next to the
-//      watcher goroutine and the fsnotify reader; every schedule within the preemption bound;
-//      oracle: no deadlock, no panic, every query / injection equals state A or state B
-//      entirely, and (manual mode) the call/return history is linearizable (porcupine).
-//  (2) free-running pass of the same operation bodies under the Go race detector on the
-//      unmodified build (checks/c12race): a cooperative scheduler's hand-offs would hide races.
+//
+//	(1) Engine B: pairs (and a triple) of cache operations as controlled threads next to the
+//	    watcher goroutine and the fsnotify reader; every schedule within the preemption bound;
+//	    oracle: no deadlock, no panic, every query / injection equals state A or state B
+//	    entirely, and (manual mode) the call/return history is linearizable (porcupine).
+//	(2) free-running pass of the same operation bodies under the Go race detector on the
+//	    unmodified build (checks/c12race): a cooperative scheduler's hand-offs would hide races.
 package main
 
 import (
@@ -23,6 +24,7 @@ import (
 	"time"
 
 	"github.com/anishathalye/porcupine"
+	oci "github.com/opencontainers/runtime-spec/specs-go"
 	"tags.cncf.io/container-device-interface/pkg/cdi"
 	"tags.cncf.io/container-device-interface/verifshim/sched"
 	"tags.cncf.io/container-device-interface/verifshim/vfs"
@@ -89,16 +91,77 @@ func scenario(sn Scen, eager bool, preempt int) *explore.Scenario {
 		var results []c12ops.Result
 		var hist []porcupine.Operation
 		clock := int64(0)
-		tick := func() int64 { clock++; return clock }
+		tick := func() int64 { sched.Touch(&clock); clock++; return clock } // the history (clock, hist, results) is shared state
 		var finalObs string
 		in := &explore.Instance{Names: []string{"main"}}
+		if sn.Kind == "default" {
+			// first use of the package-level default cache by two goroutines at once: Configure(options)
+			// against another package-level call. Whoever creates the cache, the options must be in
+			// effect afterwards (the state of the package is reset before every execution).
+			var finalDirs, finalDevs string
+			in.Threads = []func(){func() {
+				remaining := len(sn.Ops)
+				for ti, name := range sn.Ops {
+					ti, name := ti, name
+					sched.Go(fmt.Sprintf("T%d-%s", ti, name), false, 0, func() {
+						defer func() { sched.Touch(&remaining); remaining-- }()
+						res := c12ops.Result{Op: name}
+						switch name {
+						case "Configure":
+							if err := cdi.Configure(cdi.WithSpecDirs(w.D0, w.D1), cdi.WithAutoRefresh(sn.Auto)); err != nil {
+								res.Obs = "error"
+							}
+						case "Configure(other)":
+							_ = cdi.Configure(cdi.WithSpecDirs(w.D1), cdi.WithAutoRefresh(sn.Auto))
+						case "Refresh":
+							_ = cdi.Refresh()
+						case "GetDefaultCache+ListDevices":
+							res.Obs = fmt.Sprint(len(cdi.GetDefaultCache().ListDevices()) > 0)
+						case "InjectDevices":
+							_, err := cdi.InjectDevices(&oci.Spec{}, c12ops.DevicesA[0])
+							res.Obs = fmt.Sprint(err == nil)
+						case "GetErrors":
+							_ = cdi.GetErrors()
+						}
+						sched.Touch(&remaining)
+						results = append(results, res)
+					})
+				}
+				sched.Block("join", func() bool { return remaining == 0 })
+				sched.Quiesce("settled")
+				dc := cdi.GetDefaultCache()
+				finalDirs = fmt.Sprint(dc.GetSpecDirectories())
+				_ = dc.Refresh()
+				finalDevs = fmt.Sprint(dc.ListDevices())
+				_ = dc.Configure(cdi.WithAutoRefresh(false))
+			}}
+			in.Check = func(e *sched.Exec) (string, string, any) {
+				want := fmt.Sprint([]string{w.D0, w.D1})
+				other := fmt.Sprint([]string{w.D1})
+				ok := finalDirs == want
+				for _, n := range sn.Ops {
+					if n == "Configure(other)" && finalDirs == other {
+						ok = true
+					}
+				}
+				if !ok {
+					return "default-cache-configure-lost:" + sn.Ops[1], fmt.Sprintf("after Configure(WithSpecDirs(d0,d1)) raced with %s on first use, the default cache has directories %s (devices %s)", sn.Ops[1], finalDirs, finalDevs), nil
+				}
+				if finalDirs == want && finalDevs != fmt.Sprint(c12ops.DevicesA) {
+					return "default-cache-wrong-devices:" + sn.Ops[1], "the default cache lists " + finalDevs, nil
+				}
+				return "", "", nil
+			}
+			in.Observe = func() string { return "default dirs=" + short(finalDirs) }
+			return in
+		}
 		in.Threads = []func(){func() {
 			c, _ := cdi.NewCache(cdi.WithSpecDirs(w.D0, w.D1), cdi.WithAutoRefresh(sn.Auto))
 			remaining := len(sn.Ops)
 			for ti, name := range sn.Ops {
 				ti, name := ti, name
 				sched.Go(fmt.Sprintf("T%d-%s", ti, name), false, 0, func() {
-					defer func() { remaining-- }()
+					defer func() { sched.Touch(&remaining); remaining-- }()
 					run := func(o c12ops.Op, lin string) {
 						call := tick()
 						res := o.Run(w, c)
@@ -227,6 +290,9 @@ func scenarios(thorough bool) []Scen {
 				out = append(out, Scen{Kind: "pair", Ops: []string{ops[i].Name, ops[j].Name}, Auto: auto})
 			}
 		}
+		for _, other := range []string{"Refresh", "GetDefaultCache+ListDevices", "InjectDevices", "GetErrors", "Configure(other)"} {
+			out = append(out, Scen{Kind: "default", Ops: []string{"Configure", other}, Auto: auto})
+		}
 	}
 	return out
 }
@@ -240,6 +306,8 @@ type workerOut struct {
 	Violations []explore.Violation `json:"violations"`
 	Capped     bool                `json:"capped"`
 	Infra      string              `json:"infra"`
+	Pruned     int64               `json:"pruned"`
+	States     int64               `json:"states"`
 }
 
 var raceFrame = regexp.MustCompile(`container-device-interface/(pkg/cdi\.[^\s]+|specs-go\.[^\s]+|pkg/parser\.[^\s]+|schema\.[^\s]+)\(\)`)
@@ -278,10 +346,13 @@ func topFrame(block string) (fn string, harness bool) {
 		case strings.Contains(file, "/verifshim/vsync/") && strings.Contains(f, "SortedKeys"),
 			strings.Contains(file, "/verifshim/vos/"), strings.Contains(file, "/verifshim/vfilepath/"), strings.Contains(file, "/verifshim/vunix/"):
 			continue // transparent wrappers
-		case strings.Contains(file, "/verifshim/"), strings.HasPrefix(file, "/verif/"), strings.Contains(file, "/.vp/"), strings.HasSuffix(file, "export_verif.go"):
+		case strings.Contains(file, "/verifshim/"), strings.HasSuffix(file, "export_verif.go"):
 			return f, true
+		case strings.HasPrefix(file, hx.RepoRoot+"/"), strings.Contains(file, "/pkg/mod/"):
+			// the tree under verification, or a module it depends on
+			return filepath.Base(file) + ":" + f[strings.LastIndex(f, "/")+1:], false
 		}
-		return filepath.Base(file) + ":" + f[strings.LastIndex(f, "/")+1:], false
+		return f, true // the check's own sources, wherever this copy of /verif lives
 	}
 	return "?", true
 }
@@ -368,6 +439,9 @@ func main() {
 			if thorough {
 				preempt = 3
 			}
+			if v, err := strconv.Atoi(os.Getenv("VERIF_C12_PREEMPT")); err == nil {
+				preempt = v
+			}
 			enc := json.NewEncoder(os.Stdout)
 			k := 0
 			for _, sn := range scenarios(thorough) {
@@ -402,7 +476,7 @@ func main() {
 						}
 					}
 					res := explore.Explore(sc, time.Unix(dl, 0))
-					_ = enc.Encode(workerOut{Scenario: sn, Eager: eager, Executions: res.Executions, Points: res.Points, Outcomes: res.Outcomes, Violations: res.Violations, Capped: res.Capped, Infra: res.Infra})
+					_ = enc.Encode(workerOut{Scenario: sn, Eager: eager, Executions: res.Executions, Points: res.Points, Outcomes: res.Outcomes, Violations: res.Violations, Capped: res.Capped, Infra: res.Infra, Pruned: res.Pruned, States: res.States})
 				}
 			}
 			os.RemoveAll(scratch)
